@@ -50,6 +50,12 @@ def run(ck):
                 for v in pre:
                     d.update(value=v)
                 d.reset()
+                # counters read as new right after reset(), before any re-fit (a newly constructed instance is not fitted either)
+                n_new = getattr(cls(window_size=w), "num_instances", 0)
+                if getattr(d, "num_instances", 0) != n_new:
+                    ck.violation(dict(clause="reset-state", detector=name, observable="num_instances-before-refit"),
+                                 dict(what="num_instances right after reset() (before re-fitting) differs from that of a newly constructed instance", got=int(d.num_instances), fresh=int(n_new), **detail))
+                    continue
                 raised = False
                 try:
                     d.update(value=0.0)
